@@ -2,6 +2,7 @@ use crate::common::{Tier, Violation};
 use serde_json::Value;
 
 pub mod c06;
+pub mod c01;
 pub mod c04;
 pub mod c20;
 pub mod c14;
@@ -23,6 +24,7 @@ pub mod c17;
 pub fn run(id: &str, tier: Tier) -> i32 {
     match id {
         "C06" => c06::run(tier),
+        "C01" => c01::run(tier),
         "C04" => c04::run(tier),
         "C20" => c20::run(tier),
         "C14" => c14::run(tier),
@@ -52,6 +54,7 @@ pub fn replay(id: &str, v: &Value) -> i32 {
     let case = &v["case"];
     let f: fn(&Value) -> Option<Violation> = match id {
         "C06" => c06::replay_case,
+        "C01" => c01::replay_case,
         "C04" => c04::replay_case,
         "C20" => c20::replay_case,
         "C14" => c14::replay_case,
